@@ -12,6 +12,7 @@ use air_interpreter_data::*;
 use air_interpreter_value::JValue;
 use aquah::ast2coq;
 use aquah::coqfmt as c;
+use aquah::oracles;
 use aquah::sim::*;
 use serde_json::Value as J;
 use std::collections::HashMap;
@@ -281,8 +282,41 @@ fn run_case(case: &J) -> J {
     let mut terms = vec![];
     let mut classes = vec![];
     let mut infos = vec![];
-    for op in &ops {
+    let want: Vec<String> = case["oracles"].as_array().map(|a| a.iter().filter_map(|x| x.as_str().map(String::from)).collect()).unwrap_or_default();
+    let wants = |p: &str| want.iter().any(|w| w == p);
+    let model = case["model"].as_bool().unwrap_or(true);
+    let mut failures: Vec<J> = vec![];
+    let mut ledgers: Vec<oracles::PeerLedger> = peers.iter().map(|_| oracles::PeerLedger::default()).collect();
+    let min_version = air::min_supported_version().clone();
+    let observer = {
+        let obs = Peer::new("observer-peer");
+        RunInput {
+            air: script.clone(), prev: vec![], cur: vec![], init_peer_id: net.hosts[init].peer.id.clone(),
+            current_peer_id: obs.id.clone(), secret: obs.secret.clone(), key_format: 0, particle_id: net.particle_id.clone(),
+            timestamp: net.timestamp, ttl: net.ttl, limits: Limits::unlimited(), call_results: Default::default(), call_results_raw: None,
+        }
+    };
+    let mut all_ops = ops.clone();
+    if wants("C05") || case["drain"].as_bool().unwrap_or(false) {
+        // bring the history to quiescence: deliver everything, answer everything
+        for _ in 0..60 {
+            for p in 0..peers.len() { all_ops.push(Op::Return(p, 0)); }
+            all_ops.push(Op::Deliver(0, false));
+        }
+    }
+    let scheduled = ops.len();
+    for (opi, op) in all_ops.iter().enumerate() {
+        let pending_before: Vec<Vec<u32>> = net.hosts.iter().map(|h| h.pending.keys().cloned().collect()).collect();
         let rec = match net.exec(op) { Some(r) => r, None => continue };
+        if wants("C02") { failures.extend(oracles::c02(&rec)); }
+        if wants("C03") { failures.extend(oracles::c03(&rec, &min_version, Some(&observer))); }
+        if wants("C06") { failures.extend(oracles::c06(&rec, &mut ledgers[rec.peer], &pending_before[rec.peer])); }
+        if wants("C07") { failures.extend(oracles::c07(&rec)); }
+        if wants("C09") { failures.extend(oracles::c09(&rec)); }
+        if wants("C19") { failures.extend(oracles::c19_local(&rec)); }
+        if wants("C20") { failures.extend(oracles::c20(&rec)); }
+        if !model { classes.push(format!("p{}:code:{}:{}", rec.peer, rec.out.code, rec.out.msg.chars().take(120).collect::<String>())); continue; }
+        if opi >= scheduled && !case["model_drain"].as_bool().unwrap_or(false) { continue; }
         // dictionaries: everything the hosts computed so far
         for (_, (_, text)) in rec.input.call_results.iter() {
             if let Ok(v) = serde_json::from_str::<JValue>(text) {
@@ -371,7 +405,18 @@ fn run_case(case: &J) -> J {
         infos.push(serde_json::json!({"step": rec.step, "peer": rec.peer, "code": out.code, "sig_ok": sig_ok,
             "trace_len": new.as_ref().map(|d| d.data.trace.len()), "requests": out.requests.as_ref().map(|r| r.len()), "next": out.next.len()}));
     }
-    serde_json::json!({"script_term": script_term, "coq": terms, "classes": classes, "info": infos})
+    if wants("C05") {
+        let quiescent = net.inflight.is_empty() && net.hosts.iter().all(|h| h.pending.is_empty());
+        if quiescent {
+            for h in &net.hosts {
+                failures.extend(oracles::c05_final(net.step, &h.peer.id, &h.log, &h.prev));
+            }
+        }
+        infos.push(serde_json::json!({"quiescent": quiescent, "invocations": net.hosts.iter().map(|h| h.log.len()).sum::<usize>()}));
+    }
+    let invocations: usize = net.hosts.iter().map(|h| h.log.len()).sum();
+    serde_json::json!({"script_term": script_term, "coq": terms, "classes": classes, "info": infos, "oracle_failures": failures,
+                       "runs": net.step, "invocations": invocations})
 }
 
 fn main() {
